@@ -631,7 +631,7 @@ impl Property for C42a {
         ]
     }
     fn known_signature(&self, case: &Case) -> Option<String> {
-        crate::c42known::signature_a(case)
+        std::panic::catch_unwind(std::panic::AssertUnwindSafe(|| crate::c42known::signature_a(case))).ok().flatten()
     }
     fn run(&self, case: &Case) -> CaseResult {
         let spec = spec_for(case.flavor, &case.tree);
